@@ -221,10 +221,10 @@ func gen(t *rapid.T) Script {
 	}
 	s.Final = genAct(t, "final", finalKinds)
 	s.Post = uni(t, "post", 4)
-	if pct(t, "loggers", 30) {
+	if pct(t, "loggers", 20) {
 		s.Loggers = 1 + uni(t, "loggers-n", 16)
 	}
-	if pct(t, "storm", 4) {
+	if pct(t, "storm", 1) {
 		s.Storm = 10 + uni(t, "storm-n", 51)
 		if s.Loggers == 0 || rapid.Bool().Draw(t, "storm-loggers") {
 			s.Loggers = 8 + uni(t, "storm-loggers-n", 9)
@@ -1286,5 +1286,5 @@ func run(c *vt.C) func(Script) (bool, string, *vt.Finding) {
 func init() { cRun.ReplayRepeat = 20 }
 
 func TestRunLoop(t *testing.T) {
-	vt.Run(t, cRun, vt.N(12000, 600000), gen, run(cRun))
+	vt.Run(t, cRun, vt.N(8000, 600000), gen, run(cRun))
 }
